@@ -125,15 +125,24 @@ Cl_FitIsBestFit == /\ ((E.ev = "Start" /\ E.hasFits /\ ~(E.single /\ (~E.iso \/ 
 \* the same for the curve model (it returns no fit objects: the oracle is the only handle)
 NIRebased == O.single /\ ~FEqNum(O.Tcurve, O.T)
 N0 == Trace[l - E.i + 1]                    \* point 0 of the curve
-Cl_NI_PermFollowsFit == (E.ev = "NIPoint" /\ E.j >= 1) =>
-                   \A i \in 1..2 : EqR(FMul(E.P[i], Expected(O, i, N0.x, O.T, NIRebased)),
-                                       FMul(Expected(O, i, E.x, O.T, NIRebased), N0.P[i]),
-                                       FMul(E.P[i], Expected(O, i, N0.x, O.T, NIRebased)))
+\* a recorded point as the NICurve machine sees it: composition, permeance pair, and the values of the two fitted functions there
+NIc == INSTANCE NICurve WITH Add <- FAdd, Sub <- FSub, Mul <- FMul, Div <- FDiv, Lt <- FLt, Le <- FLe, Eq <- EqR, Dec <- Lit,
+                             Dev <- "none", run <- l, xs <- l, Ps <- l, Js <- l, fv <- l, FR <- l, pc <- l
+NIpt(r) == [x |-> r.x, P |-> r.P, f |-> <<Expected(O, 1, r.x, O.T, NIRebased), Expected(O, 2, r.x, O.T, NIRebased)>>]
+Cl_NI_PermFollowsFit == (E.ev = "NIPoint" /\ E.j >= 1) => \A i \in 1..2 : NIc!PermRel(NIpt(E), NIpt(N0), i)
 Cl_NI_Step0 == (E.ev = "NIPoint" /\ E.j = 0) =>
                    /\ EqR(E.x, O.x0w, One) /\ E.xtype = "weight"
                    /\ IF O.P0given THEN EqR(E.P[1], O.P0kg[1], E.P[1]) /\ EqR(E.P[2], O.P0kg[2], E.P[2])
                       ELSE \A i \in 1..2 : EqR(E.P[i], Expected(O, i, E.x, O.T, NIRebased), E.P[i])
 Cl_NI_Len == (E.ev = "NIEnd") => (E.nx = E.nP /\ E.nx = E.nJ /\ E.nx = O.N + 1 /\ E.i = E.nx + 1)
+\* the rest of the NICurve machine on recorded curves (reference semantics, DRIFT): the composition grid, the fluxes of every
+\* point = the public standalone calculation at that point's own composition and permeances, and the outcome of the call
+\* (it returns iff every grid point including the look-ahead point of the last iteration is a fraction)
+Ref_NI_Grid == (E.ev = "NIPoint" /\ E.j >= 1) => NIc!GridRel(Pre, E, O.dx)
+Ref_NI_FluxAtPoint == (E.ev = "NIPoint" /\ E.Jstd # <<>>) =>
+                   LET tot == FAdd(FAbs(E.J[1]), FAbs(E.J[2])) IN EqR(E.J[1], E.Jstd[1], tot) /\ EqR(E.J[2], E.Jstd[2], tot)
+Ref_NI_Outcome == (E.ev = "NIStart") => /\ (E.outcome = "return" => NIc!ReturnsByGrid(E.x0w, E.dx, E.N))
+                                         /\ (~NIc!ReturnsByGrid(E.x0w, E.dx, E.N) => E.outcome = "raise")
 
 (* ------------- the whole ideal process as an executable reference (DRIFT level) ------------- *)
 (* Start carries the mixture parameters and the membrane's experiments; every reported state is  *)
